@@ -91,6 +91,14 @@ func ZZC01(n int) {
 	}
 	zzv.Obs("pattern", o.pattern)
 	zzv.Assert(o.id != id404, "node-with-404-handler")
+	if path == "*" || path == "" {
+		// the server-wide OPTIONS request is not a matched route: it reports the
+		// router's internal node (empty pattern) and no parameters.
+		zzv.Cover("options-star")
+		zzv.Assert(method == "OPTIONS" && o.id == idOpt, "star-served-for-non-OPTIONS")
+		zzv.Assert(o.pattern == "" && o.params.Count() == 0, "star-reports-route-or-params")
+		return
+	}
 	zzv.Assert(model.find(o.pattern) >= 0, "reported-pattern-not-live")
 	zzCheckRoute("route", o.pattern, path, o.params)
 	switch {
